@@ -167,51 +167,7 @@ def check_coverage(ctx, chk):
             if want_arg is None or arg != want_arg:
                 bad.append(f"{arg} in loops {loops} at {ev.loc}")
         chk.ob("C16.coverage", desc_a, not bad, "; ".join(bad), fi.module.path)
-    # _update_host_to_vulnerable exits
-    fi, ip, s, cn = method_run(ctx, "_update_host_to_vulnerable", no_inline=(
-        "_update_host_exploit_vulnerability", "_update_host_privesc_vulnerability"))
-    ex = [ev for ev in s.events if ev.kind == "call"
-          and ev.data["fname"].endswith("_update_host_exploit_vulnerability")]
-    pe = [ev for ev in s.events if ev.kind == "call"
-          and ev.data["fname"].endswith("_update_host_privesc_vulnerability")]
-    rs = [ev for ev in s.events if ev.kind == "raise"]
-    # the ways out of the retry loop that are not the final raise: `return` inside the loop, or a
-    # `break` (followed by falling off the end; the raise then sits in the loop's else / after a
-    # flag test) - compared as one condition, per iteration
-    brk = [ev for ev in s.events if ev.kind == "break"]
-    exits = [pc for pc, _ in s.returns] + [ev.pc for ev in brk]
-    ok = len(ex) == 1 and len(pe) == 1 and len(rs) == 1 and len(exits) >= 1
-    detail = f"{len(ex)} exploit patch, {len(pe)} escalation patch, {len(rs)} raise, " \
-             f"{len(s.returns)} return(s), {len(brk)} break(s)"
-    if ok:
-        host, lvl = fi.rparams[1], fi.rparams[2]
-        a_ex = [cn.show(a) for a in ex[0].data["args"][1:]]
-        a_pe = [cn.show(a) for a in pe[0].data["args"][1:]]
-        r_ex = cn.show(ex[0].data["result"])
-        r_pe = cn.show(pe[0].data["result"])
-        conds = sorted(f_show(cn.conj(tuple(c for c in pc if c[0] not in ("inloop", "fact"))))
-                       for pc in exits)
-        F_exit = f_or([cn.conj(tuple(c for c in pc if c[0] not in ("inloop", "fact")))
-                       for pc in exits])
-        low = A(f"{r_ex}[1]['access']<{lvl}")
-        want = f_or([f_not(low), f_and([low, A(f"{r_pe}[0]")])])
-        # the escalation is attempted only when the exploit's access is not enough
-        pe_cond = cn.conj(tuple(c for c in pe[0].pc if c[0] not in ("inloop", "fact")))
-        ok = a_ex == [host, "False"] and a_pe == [host, "True"] and bool(f_equiv(F_exit, want)) \
-            and pe[0].seq > ex[0].seq and bool(f_equiv(pe_cond, low))
-        detail = (f"exploit patch{tuple(a_ex)}, escalation patch{tuple(a_pe)} under "
-                  f"{f_show(pe_cond)[:80]}; leaves the loop under {conds}")
-    desc = ("_update_host_to_vulnerable returns only once the chosen exploit grants enough access, "
-            "or after an OS-compatible escalation was enabled (os_constraint=True, after the OS was "
-            "fixed); otherwise it raises")
-    if not ex or not pe:
-        # the two patching helpers are private: under other names / signatures the rule has nothing
-        # to compare the exits with
-        chk.undecided("C16.coverage", desc, "the patching helpers _update_host_exploit_vulnerability"
-                      " / _update_host_privesc_vulnerability are not called under these names: "
-                      + detail, fi.module.path)
-    else:
-        chk.ob("C16.coverage", desc, ok, detail[:500], fi.module.path)
+    check_patch_one_host(ctx, chk)
     # _host_is_vulnerable predicate
     fi, ip, s, cn = method_run(ctx, "_host_is_vulnerable", no_inline=(
         "_host_is_vulnerable_to_exploit", "_host_is_vulnerable_to_privesc"))
@@ -239,75 +195,131 @@ def check_coverage(ctx, chk):
                "runs it)", f_equiv(true_f, want), f_show(true_f)[:300], fi.module.path)
 
 
+def check_patch_one_host(ctx, chk):
+    """_update_host_to_vulnerable(host, level), read with its private helpers inlined (their names,
+    signatures and return conventions are not part of the rule): per try, an exploit is drawn from
+    *all* exploits and the host is made to run its service and OS; the loop is left when that
+    exploit gives enough access, or after an escalation was drawn from those the host's (now fixed)
+    OS admits and the host was made to run its process; otherwise the method raises"""
+    from sa.canon import f_subst
+    G_ = f"{GEN_MOD}:ScenarioGenerator."
+    fi, ip, s, cn = method_run(ctx, "_update_host_to_vulnerable", no_inline=("_update_host_os",),
+                               trace_reads=("os",))
+    host, lvl = fi.rparams[1], fi.rparams[2]
+    what = "_update_host_to_vulnerable: "
+    strip = lambda pc: tuple(c for c in pc if c[0] not in ("inloop", "fact"))     # noqa: E731
+    draws = [ev for ev in s.events if ev.kind == "call"
+             and ev.data["fname"] == "numpy.random.choice" and ev.data["args"]]
+    if len(draws) != 2:
+        chk.undecided("C16.patch", what + "one exploit and at most one escalation are drawn per try",
+                      f"{len(draws)} np.random.choice call(s); only the two-draw form is decoded",
+                      fi.module.path)
+        return
+    d_e, d_p = draws
+    E, P = cn.show(d_e.data["result"]), cn.show(d_p.data["result"])
+    DP = "G.privescs[each(G.privescs)]"
+    FILT = f"[{DP} for each(G.privescs) if ({DP}['os'] is None | {host}.os[{DP}['os']])]"
+    low = A(f"{E}['access']<{lvl}")
+    some = A(f"0<len({FILT})")
+
+    def clean(F):
+        # a drawn definition is an entry of the table (a dict): `None is <draw>` is false;
+        # the truth value of the filtered list is "it has an element"
+        return f_subst(F, lambda a: f_or([]) if a in (f"None is {P}", f"None is {E}")
+                       else some if a == FILT else None)
+
+    pool_e = cn.show(d_e.data["args"][0])
+    if pool_e in ("[G.exploits[each(G.exploits)] for each(G.exploits) if True]",
+                  "[G.exploits[each(G.exploits)] for each(G.exploits)]"):
+        pool_e = "list(G.exploits.values())"          # the same list, spelt as a comprehension
+    chk.ob("C16.patch", what + "the exploit is drawn from all exploits, on every try",
+           pool_e in ("list(G.exploits.values())",) and f_equiv(cn.conj(strip(d_e.pc)), f_and([])),
+           f"pool {pool_e[:200]} under {f_show(cn.conj(strip(d_e.pc)))[:120]}", d_e.loc)
+    pool_p = cn.show(d_p.data["args"][0])
+    Fp = clean(cn.conj(strip(d_p.pc)))
+    chk.ob("C16.patch", what + "the escalation is drawn - only when the exploit's access is not "
+           "enough - from the escalations whose OS is None or the host's",
+           pool_p == FILT and bool(f_equiv(Fp, f_and([low, some]))),
+           f"pool {pool_p[:300]} under {f_show(Fp)[:200]}", d_p.loc)
+    sts = [ev for ev in s.events if ev.kind == "store" and ev.data["target"] == "sub"]
+    for tab, key, D, dr in (("services", "service", E, d_e), ("processes", "process", P, d_p)):
+        mine = [ev for ev in sts if cn.show(ev.data["base"]) == f"{host}.{tab}"]
+        ok = len(mine) == 1 and cn.show(mine[0].data["idx"]) == f"{D}['{key}']" \
+            and mine[0].data["value"] in (C(True), C(1)) and mine[0].seq > dr.seq \
+            and bool(f_equiv(clean(cn.conj(strip(mine[0].pc))), clean(cn.conj(strip(dr.pc)))))
+        chk.ob("C16.patch", what + f"the host is left running the drawn definition's {key} "
+               f"({host}.{tab}[drawn['{key}']] := True whenever one was drawn)", ok,
+               str([(cn.show(e.data['idx'])[:80], cn.show(e.data['value']),
+                     f_show(cn.conj(strip(e.pc)))[:80]) for e in mine]), fi.module.path)
+    other = [ev for ev in sts if cn.show(ev.data["base"]).startswith(f"{host}.")
+             and cn.show(ev.data["base"]) not in (f"{host}.services", f"{host}.processes",
+                                                   f"{host}.os")]
+    os_sts = [ev for ev in sts if cn.show(ev.data["base"]) == f"{host}.os"]
+    osc = [ev for ev in s.events if ev.kind == "call"
+           and ev.data["fname"] == G_ + "_update_host_os"]
+    desc_os = what + ("the host is switched to the exploit's OS when it names one - before the "
+                      "escalations its OS admits are listed - and its OS is not touched afterwards")
+    # the escalations the host's OS admits are listed after the OS was fixed
+    reads_os = [ev.seq for ev in s.events if ev.kind == "read"
+                and cn.show(ev.data["base"]) == f"{host}.os"
+                and "G.privescs[" in cn.show(ev.data["idx"])]
+    named = f_not(A(f"None is {E}['os']"))
+    switch = None            # (first seq, last seq, condition, detail) of the OS switch
+    if len(osc) == 1 and not os_sts and not other:
+        args = [cn.show(a) for a in osc[0].data["args"]]
+        F = clean(cn.conj(strip(osc[0].pc)))
+        if args[-2:] == [host, f"{E}['os']"]:
+            switch = (osc[0].seq, osc[0].seq, F)
+        detail = f"_update_host_os({', '.join(a[:60] for a in args)}) under {f_show(F)[:200]}"
+        if switch is None:
+            chk.ob("C16.patch", desc_os, False, detail, fi.module.path)
+    elif not osc and not other and os_sts:
+        # the switch written in place (or in a helper of another name, inlined here): every OS
+        # flag cleared, then the exploit's OS set
+        clear = [ev for ev in os_sts if ev.data["value"] in (C(False), C(0))
+                 and cn.show(ev.data["idx"]) == f"each({host}.os)"]
+        setv = [ev for ev in os_sts if ev.data["value"] in (C(True), C(1))
+                and cn.show(ev.data["idx"]) == f"{E}['os']"]
+        detail = str([(cn.show(e.data["idx"])[:60], cn.show(e.data["value"]),
+                       f_show(clean(cn.conj(strip(e.pc))))[:80]) for e in os_sts])
+        if len(clear) == 1 and len(setv) == 1 and len(os_sts) == 2 \
+                and clear[0].seq < setv[0].seq \
+                and f_equiv(clean(cn.conj(strip(clear[0].pc))), clean(cn.conj(strip(setv[0].pc)))):
+            switch = (clear[0].seq, setv[0].seq, clean(cn.conj(strip(setv[0].pc))))
+        else:
+            chk.undecided("C16.patch", desc_os, "the host's OS flags are written in a form the "
+                          "rule does not decode: " + detail, fi.module.path)
+    elif not osc and not os_sts and not other:
+        chk.ob("C16.patch", desc_os, False, "the host's OS is never switched: an exploit drawn from "
+               "all exploits may name an OS the host does not run", fi.module.path)
+        detail = ""
+    else:
+        detail = f"{len(osc)} _update_host_os call(s), {len(os_sts)} store(s) into the host's OS " \
+                 f"flags, {len(other)} other store(s) into the host"
+        chk.undecided("C16.patch", desc_os, "not decoded: " + detail, fi.module.path)
+    if switch is not None:
+        first, last, F = switch
+        ok = bool(f_equiv(F, named)) and first > d_e.seq and last < d_p.seq \
+            and all(q > last for q in reads_os)
+        if [q for q in reads_os if q < last]:
+            detail += "; the host's OS flags are read before that (a list of OS-compatible " \
+                      "escalations computed then describes the host's old OS)"
+        chk.ob("C16.patch", desc_os, ok, detail, fi.module.path)
+    rs = [ev for ev in s.events if ev.kind == "raise"]
+    brk = [ev for ev in s.events if ev.kind == "break"]
+    exits = [pc for pc, _ in s.returns] + [ev.pc for ev in brk]
+    F_exit = clean(f_or([cn.conj(strip(pc)) for pc in exits]))
+    want = f_or([f_not(low), f_and([low, some])])
+    chk.ob("C16.coverage", what + "the retry loop is left only once the chosen exploit grants enough "
+           "access, or after an OS-compatible escalation was enabled; otherwise the method raises",
+           len(rs) == 1 and bool(exits) and bool(f_equiv(F_exit, want)),
+           f"{len(rs)} raise(s); leaves the loop under {f_show(F_exit)[:300]}", fi.module.path)
+
+
 def check_patching(ctx, chk):
     """what "patch the host" does: the helpers that make a host vulnerable must really leave it
     running the drawn definition's service / process (and OS), the definition must be drawn from
     the ones that can apply, and the sensitive-host test must be membership in sensitive_hosts"""
-    G_ = f"{GEN_MOD}:ScenarioGenerator."
-    for meth, table, fld, hostattr in (
-            ("_update_host_exploit_vulnerability", "exploits", "service", "services"),
-            ("_update_host_privesc_vulnerability", "privescs", "process", "processes")):
-        what = f"{meth}: "
-        try:
-            fi, ip, s, cn = method_run(ctx, meth, no_inline=("_update_host_os",))
-        except Exception as e:       # anchor renamed: not decided
-            chk.undecided("C16.patch", what + "helper found", str(e)[:120])
-            continue
-        host, oc = fi.rparams[1], fi.rparams[2]
-        D = f"G.{table}[each(G.{table})]"
-        FILT = f"[{D} for each(G.{table}) if ({D}['os'] is None | {host}.os[{D}['os']])]"
-        ALL = f"list(G.{table}.values())"
-        draws = [ev for ev in s.events if ev.kind == "call"
-                 and ev.data["fname"] == "numpy.random.choice"]
-        if len(draws) != 1:
-            chk.undecided("C16.patch", what + "one definition is drawn from the applicable ones",
-                          f"{len(draws)} np.random.choice call(s); only the single-draw form is "
-                          "decoded", fi.module.path)
-            continue
-        pool = cn.show(draws[0].data["args"][0]) if draws[0].data["args"] else "?"
-        want_pool = (f"({oc} ? {FILT} : {ALL})", f"({oc} ? {FILT} : list(G.{table}))")
-        chk.ob("C16.patch", what + "the definition is drawn from all definitions, or - when the "
-               "host's OS must be kept - from those whose OS is None or the host's",
-               pool in want_pool, f"pool {pool[:300]}", draws[0].loc)
-        DR = cn.show(draws[0].data["result"])
-        sts = [ev for ev in s.events if ev.kind == "store" and ev.data["target"] == "sub"
-               and cn.show(ev.data["base"]) == f"{host}.{hostattr}"]
-        # "unconditionally": on every path that ends in the success result (True, definition) -
-        # an early `return False, None` before the draw is not a path of the store
-        succ_pcs = [pc for pc, t in s.returns
-                    if t[0] == "tuple" and t[1] and t[1][0] in (C(True), C(1))]
-        from sa.canon import f_implies
-        ok = len(sts) == 1 and cn.show(sts[0].data["idx"]) == f"{DR}['{fld}']" \
-            and sts[0].data["value"] in (C(True), C(1)) \
-            and bool(succ_pcs) and all(f_implies(cn.conj(pc), cn.conj(sts[0].pc))
-                                       for pc in succ_pcs) \
-            and sts[0].seq > draws[0].seq
-        chk.ob("C16.patch", what + f"the host is left running the drawn definition's {fld} "
-               f"({host}.{hostattr}[drawn['{fld}']] := True, unconditionally)", ok,
-               str([(cn.show(e.data['idx'])[:80], cn.show(e.data['value'])) for e in sts]),
-               fi.module.path)
-        osc = [ev for ev in s.events if ev.kind == "call"
-               and ev.data["fname"] == G_ + "_update_host_os"]
-        ok = len(osc) == 1
-        detail = f"{len(osc)} _update_host_os call(s)"
-        if ok:
-            F = cn.conj(tuple(c for c in osc[0].pc if c[0] not in ("fact", "inloop")))
-            want = f_and([f_not(A(f"None is {DR}['os']")), f_not(A(oc))])
-            args = [cn.show(a) for a in osc[0].data["args"]]
-            # (relative to the draw having taken place: the early "nothing applicable" exit is
-            # not part of the condition)
-            Fd = cn.conj(tuple(c for c in draws[0].pc if c[0] not in ("fact", "inloop")))
-            ok = (f_equiv(F, want) or f_equiv(F, f_and([Fd, want]))) \
-                and args[-2:] == [host, f"{DR}['os']"]
-            detail = f"_update_host_os({', '.join(a[:60] for a in args)}) under {f_show(F)[:200]}"
-        chk.ob("C16.patch", what + "unless the OS must be kept, the host is switched to the drawn "
-               "definition's OS when it names one", ok, detail, fi.module.path)
-        rets = {(f_show(cn.conj(tuple(c for c in pc if c[0] != "fact"))), cn.show(t))
-                for pc, t in s.returns}
-        succ = [r for r in rets if r[1] == f"(True, {DR})"]
-        chk.ob("C16.patch", what + "reports success together with the drawn definition",
-               len(succ) == 1 and all(r[1] in (f"(True, {DR})", "(False, None)") for r in rets),
-               str(sorted(rets))[:300], fi.module.path, nontrivial=False)
     # _update_host_os: exactly the given OS afterwards
     try:
         fi, ip, s, cn = method_run(ctx, "_update_host_os")
